@@ -97,7 +97,7 @@ class Prefix(Enum):
             exptemp = e(targ)
 
             # Scale the other number
-            new_num = other.number * Decimal(10) ** (targ - exptemp.symbol.value)
+            new_num = _EXACT.scaleb(other.number, int(targ - exptemp.symbol.value))
 
             # And create a corresponding `Prefixed`
             return Prefixed.new(new_num, exptemp.symbol)
@@ -230,17 +230,21 @@ class Prefixed(BaseModel):
 
     def __mul__(self, other) -> "Prefixed":
         if isinstance(other, Prefixed):
-            return (self.number * other.number * self.prefix * other.prefix).scale()
+            num = _EXACT.multiply(self.number, other.number)
+            return (num * self.prefix * other.prefix).scale()
         elif not isinstance(other, (str, int, float, Decimal)):
             return NotImplemented
-        return Prefixed.new(self.number * Decimal(str(other)), self.prefix).scale()
+        num = _EXACT.multiply(self.number, Decimal(str(other)))
+        return Prefixed.new(num, self.prefix).scale()
 
     def __rmul__(self, other) -> "Prefixed":
         if isinstance(other, Prefixed):
-            return (self.number * other.number * self.prefix * other.prefix).scale()
+            num = _EXACT.multiply(self.number, other.number)
+            return (num * self.prefix * other.prefix).scale()
         elif not isinstance(other, (str, int, float, Decimal)):
             return NotImplemented
-        return Prefixed.new(self.number * Decimal(str(other)), self.prefix).scale()
+        num = _EXACT.multiply(self.number, Decimal(str(other)))
+        return Prefixed.new(num, self.prefix).scale()
 
     def __truediv__(self, other) -> "Prefixed":
         if isinstance(other, Prefixed):
@@ -372,22 +376,22 @@ def to_prefixed(v: Union[Prefixed, ToPrefixed]) -> Prefixed:
 def _add(lhs: Prefixed, rhs: Prefixed) -> Prefixed:
     """`Prefixed` Addition"""
     if lhs.prefix == rhs.prefix:
-        return Prefixed.new(lhs.number + rhs.number, lhs.prefix)
+        return Prefixed.new(_EXACT.add(lhs.number, rhs.number), lhs.prefix)
 
     # Different prefix values. Scale to the smaller of the two
     smaller = lhs.prefix if lhs.prefix.value < rhs.prefix.value else rhs.prefix
-    newnum = lhs.scale(smaller).number + rhs.scale(smaller).number
+    newnum = _EXACT.add(lhs.scale(smaller).number, rhs.scale(smaller).number)
     return Prefixed.new(newnum, smaller)
 
 
 def _subtract(lhs: Prefixed, rhs: Prefixed) -> Prefixed:
     """`Prefixed` Subtraction"""
     if lhs.prefix == rhs.prefix:
-        return Prefixed.new(lhs.number - rhs.number, lhs.prefix)
+        return Prefixed.new(_EXACT.subtract(lhs.number, rhs.number), lhs.prefix)
 
     # Different prefix values. Scale to the smaller of the two
     smaller = lhs.prefix if lhs.prefix.value < rhs.prefix.value else rhs.prefix
-    newnum = lhs.scale(smaller).number - rhs.scale(smaller).number
+    newnum = _EXACT.subtract(lhs.scale(smaller).number, rhs.scale(smaller).number)
     return Prefixed.new(newnum, smaller)
 
 
